@@ -418,7 +418,9 @@ func RunC07(rep *explore.Report, tier string) {
 	func() {
 		runtime.LockOSThread()
 		defer runtime.UnlockOSThread()
-		for _, c := range SceneGrid(tier) {
+		// (the three-way comparison with map-order deviations is two orders of magnitude dearer per state than
+		// the other visitors: C07 takes the scripted scenes of the tier, not the every-state preludes)
+		for _, c := range sceneGrid(tier, false) {
 			(&c07run{cfg: c, rep: rep}).explore(400000)
 			rep.Add("scene_configurations", 1)
 		}
